@@ -431,3 +431,4 @@ func VerifC11CloseTwice(withCall int) {
 	verifAssert(verifGoroutines() == 0, "no-goroutine-left-after-close")
 	verifReach("end")
 }
+
